@@ -237,6 +237,50 @@ pub fn gen_ws_conn(r: &mut Rng, nonce: &mut u64, port: u16, allow_faults: bool) 
     c
 }
 
+/// A valid handshake followed by a payload sent in pieces over a few
+/// seconds, then half-close (used by C17 for a channel open at shutdown).
+pub fn gen_valid_ws_conn(r: &mut Rng, nonce: &mut u64, port: u16) -> ConnPlan {
+    let mut c = blank_conn(port);
+    c.kind = ConnKind::Upgrade;
+    let my = *nonce;
+    *nonce += 1;
+    let key = gen_key(r);
+    let headers = vec![
+        hdr("host", "sim"),
+        hdr("x-sim", &format!("{};0;0;0;4;0", my)),
+        hdr("connection", "Upgrade"),
+        hdr("upgrade", "websocket"),
+        hdr("sec-websocket-version", "13"),
+        ("sec-websocket-key".to_string(), key.clone()),
+    ];
+    let head = build_request("GET", &format!("/ws/id{}", my), &headers, b"", &BodyFraming::None);
+    c.steps.push(Step::Send { data: Blob(head), completes: Some(0) });
+    c.steps.push(Step::AwaitResponses { count: 1, max_ms: 30_000 });
+    let plen = r.usize_in(1, 3000);
+    let payload = r.bytes(plen);
+    let mut off = 0;
+    while off < plen {
+        let n = r.usize_in(1, (plen - off).min(700));
+        c.steps.push(Step::Send { data: Blob(payload[off..off + n].to_vec()), completes: None });
+        off += n;
+        c.steps.push(Step::Sleep { ms: r.range(0, 800) });
+    }
+    c.steps.push(Step::HalfClose);
+    c.steps.push(Step::AwaitEof { max_ms: 60_000 });
+    c.reqs.push(ReqPlan {
+        nonce: my,
+        head_method: false,
+        expect: Expect::Ws {
+            valid: true,
+            accept: ws_accept(&key),
+            greeting: Blob(greeting(my, 4)),
+            payload: Blob(payload),
+            why: String::new(),
+        },
+    });
+    c
+}
+
 pub fn gen_random(seed: u64, idx: u64) -> Plan {
     let mut r = Rng::derive(mix(seed, idx), "c20-random");
     let mode = if r.chance(1, 2) { Mode::Cancel } else { Mode::Detached };
